@@ -19,3 +19,14 @@ func C09HookClock(observe func(time.Time)) {
 		return t
 	}
 }
+
+// C09Peek is added by the C09 verification harness: the limiter's raw state,
+// read without the lock (the simulation runs one goroutine at a time). The
+// harness only compares two readings for equality to learn WHICH limiter an
+// acquisition went to; the numbers are never interpreted.
+func C09Peek(rl *RateLimiter) (int, int) {
+	if rl == nil {
+		return 0, 0
+	}
+	return rl.cycle, rl.tokens
+}
